@@ -9,8 +9,9 @@ RULE = ('histories = constructor + random interleavings of queueMsg/sendMsg/take
         'over generated settings (throttleTime, rateLimit.join, queuing.duplicates, ping, ping.interval, network password) and a '
         'two-callback outFilter chain that passes, rewrites or drops (returning None, optionally advancing the clock) per message.  '
         'Every history runs on a real irclib.Irc with a stub driver and on the extracted model; the per-call events and the '
-        'complete send state after every call are diffed.  The ledger, refusal, priority, FIFO, throttle, JOIN-rate, no-stall and '
-        'drain clauses are evaluated directly on the implementation.  non-trivial = distinct history with at least one takeMsg')
+        'complete send state after every call are diffed.  The ledger, refusal, priority, FIFO, throttle, JOIN-rate, no-stall, '
+        'drain and eventual-delivery (nothing accepted is still pending after a long enough steady-polling tail; dedicated stream with '
+        'rateLimit.join > 0 and several JOINs) clauses are evaluated directly on the implementation.  non-trivial = distinct history with at least one takeMsg')
 TRUSTED = ['the clock (irclib.time.time), the composite outFilter chain (any function msg -> pass | rewrite | drop+delay) and the '
            'configuration enter the model as inputs; IrcMsg.__eq__ is modelled as equality of (command, content key)',
            '_truncateMsg, label tagging and echo emulation inside takeMsg are not modelled (they do not touch the send state); '
@@ -23,7 +24,7 @@ LEVEL_TEXT = ('Coq theorems over an executable Gallina model of IrcMsgQueue and 
               'and settings as inputs), for all histories: multiset ledger accepted = delivered + dropped-by-filter + flushed-by-reset + pending '
               'with unique ghost stamps (no loss, no duplication), explicit refusal by queueMsg, class priority, FIFO within a class (JOINs exempt), '
               'throttle and JOIN-rate spacing, filter drop = continue on the rest; queue drain before driver.die() on a decidable domain with '
-              'refuting witnesses outside (finding F18), silent refusal by sendMsg (finding F18b).  Model tied to the source by regenerated '
+              'refuting witnesses outside (finding F18), silent refusal by sendMsg (finding F18b).  Eventual delivery of a held-back JOIN is proved at step level only (C19_join_not_starved_partial: a failed attempt does not move the deadline; at the deadline the JOIN at the head is released); the schedule-level claim is checked on the implementation by steady-polling tails.  Model tied to the source by regenerated '
               '_high/_low/JOIN tables and a differential run of events and full send state against a real Irc on every check.')
 LEVEL_NOTE = ('Trusted: Coq kernel, gen_tables.py, extraction + OCaml driver, the Python harness (event reconstruction from queue snapshots, '
               'filter logs and driver log); Python code is modelled not verified; truncation/labels/echo emulation are outside the model.')
@@ -236,6 +237,7 @@ def run_impl(case):
             fact['after'] = lists()
             fact['now'] = sess.ft.T
             fact['zombie'], fact['afterConnect'] = bool(irc.zombie), bool(irc.afterConnect)
+            fact['after_lastTake'], fact['after_lastJoin'] = irc.lastTake, irc.queue.lastJoin
             obs.append([evs, snap()])
             facts.append(fact)
             if 'die' in drv.log:
@@ -244,6 +246,9 @@ def run_impl(case):
         irclib.time = saved_time
         if irc is not None and irc in E['world'].ircs:
             E['world'].ircs.remove(irc)
+    # clock delay a dropping filter adds when it drops this message (for the length a polling tail needs)
+    case['_infos'] = dict((k, (v[4] if v[3] >= 2 and v[4] > 0 else 0)) for k, v in sess.info.items())
+    case['_keep'] = sess.keep
     return obs, facts
 
 
@@ -264,6 +269,7 @@ def oracle(case, facts):
     last_qtake = None
     last_join = None
     die_asked_connected = False
+    tail_start = None
     for i, f in enumerate(facts):
         code = f['op']
         for m in f.get('accepted', []):
@@ -331,6 +337,27 @@ def oracle(case, facts):
             if f['died'] and die_asked_connected and flat_after:
                 out.append(('drain', 'op %d: driver.die() with %d message(s) still pending: %s'
                             % (i, len(flat_after), ' '.join(m.command for m in flat_after))))
+        # eventual delivery: a steady-polling tail (takeMsg once per virtual second, nothing new queued, bot alive)
+        # that is long enough must leave nothing pending of what had been accepted before it
+        tail = case.get('tail')
+        if tail is not None and i == tail - 1:
+            tail_start = {'pending': list(flat_after), 'now': f['now'], 'lastTake': f['after_lastTake'], 'lastJoin': f['after_lastJoin'],
+                          'zombie': f['zombie'], 'died': f.get('died', False)}
+        if tail is not None and i == len(facts) - 1 and i >= tail and tail_start is not None:
+            ts = tail_start
+            polls = case['ops'][tail:len(facts)]
+            steady = all(o[0] == 2 for o in polls) and all(polls[k][1] - (polls[k - 1][1] if k else ts['now']) == 1 for k in range(len(polls)))
+            alive = not ts['zombie'] and not ts['died'] and not any(x.get('died') for x in facts)
+            infos = case.get('_infos', {})
+            need = ((len(ts['pending']) + 2) * (max(throttle, 0) + max(jlimit, 0) + 2)
+                    + sum(infos.get(id(m), 0) for m in ts['pending'])
+                    + max(0, ts['lastTake'] - ts['now']) + max(0, ts['lastJoin'] - ts['now']))
+            if steady and alive and len(polls) >= need:
+                left = [m for m in flat_after if any(m is x for x in ts['pending'])]
+                if left:
+                    out.append(('starved', 'op %d: after %d steady polls (1/s, nothing new queued, throttleTime %s, rateLimit.join %s) %d message(s) '
+                                'accepted before the polling are still pending: %s'
+                                % (i, len(polls), throttle, jlimit, len(left), ' '.join(m.command for m in left))))
         # ledger, every step: accepted = delivered + dropped + flushed + pending, each exactly once
         lhs = sorted(id(m) for m in accepted)
         rhs = sorted([id(m) for m in delivered] + [id(m) for m in dropped] + [id(m) for m in flushed] + [id(m) for m in flat_after])
@@ -439,6 +466,68 @@ def gen_case(rng, hostile):
     return {'cfg': cfg, 'ops': ops}
 
 
+def add_tail(case, T):
+    """append a steady-polling tail: takeMsg once per virtual second, long enough for everything pending to be released"""
+    cfg, ops = case['cfg'], case['ops']
+    msgs = [o[1] for o in ops if o[0] in (0, 1)]
+    npend = len(msgs) + 4 * (1 + sum(1 for o in ops[1:] if o[0] == 4)) + 2
+    tmax = max([o[1] for o in ops if o[0] in (2, 4)] + [T])
+    sdt = sum(m[4] for m in msgs if m[3] >= 2 and m[4] > 0)
+    # lastTake/lastJoin may be ahead of the clock by the drop delays or by a backward clock: start after the highest reading
+    n = (npend + 2) * (max(cfg[0], 0) + max(cfg[1], 0) + 2) + 2 * sdt + 2
+    case['tail'] = len(ops)
+    t = tmax + sdt
+    for _ in range(n):
+        t += 1
+        ops.append([2, t])
+    return case
+
+
+def gen_join_tail(rng):
+    """rateLimit.join > 0, several JOINs queued among other traffic, polled faster than the limit, then a steady tail"""
+    cfg = [rng.choice([0, 0, 1, 2]), rng.choice([2, 3, 5, 10]), int(rng.random() < 0.3), int(rng.random() < 0.7), rng.choice([3, 10, 120]), 0]
+    T = rng.choice([1, 5, 50])
+    ops = [[4, T]]
+    if rng.random() < 0.7:
+        for _ in range(rng.randint(0, 4)):
+            T += 1
+            ops.append([2, T])
+        ops.append([5])
+    for i in range(rng.randint(3, 12)):
+        r = rng.random()
+        if r < 0.5:
+            m = gen_msg(rng, 0, False, T)
+            m[1] = 'JOIN'
+            m[2] = len(ops)
+            ops.append([0, m])
+        elif r < 0.7:
+            ops.append([0, gen_msg(rng, 0, False, T)])
+        elif r < 0.75:
+            ops.append([1, gen_msg(rng, 0, False, T)])
+        else:
+            T += rng.choice([0, 1, 1, 2])
+            ops.append([2, T])
+    for i, o in enumerate(ops):
+        if o[0] in (0, 1):
+            o[1][0] = i
+    return add_tail({'cfg': cfg, 'ops': ops}, T)
+
+
+def gen_tail_case(rng, hostile):
+    """a short general history (no die) followed by a steady-polling tail"""
+    c = gen_case(rng, hostile)
+    ops = []
+    for o in c['ops']:
+        if o[0] == 3:
+            break
+        ops.append(o)
+        if len(ops) >= 28:
+            break
+    c['ops'] = ops
+    T = max(o[1] for o in ops if o[0] in (2, 4))
+    return add_tail(c, T)
+
+
 def M(mid, cmd, key=0, act=0, dt=0):
     return [mid, cmd, key, act, dt]
 
@@ -466,6 +555,11 @@ CORPUS = [
     # drops across fast and queue, rewrite
     {'cfg': [1, 0, 0, 1, 120, 0], 'ops': [[4, 1], [1, M(1, 'PONG', 0, 3, 1)], [0, M(2, 'KICK', 1, 4, 2)], [0, M(3, 'TOPIC', 1, 1, 0)], [0, M(4, 'PRIVMSG', 2, 2, 5)],
                                           [2, 5], [2, 6], [2, 7], [2, 8], [2, 9], [2, 20], [2, 30]]},
+    # rateLimit.join 5, three JOINs and a PRIVMSG, polled once a second: every JOIN must eventually be released
+    add_tail({'cfg': [0, 5, 0, 0, 120, 0], 'ops': [[4, 1], [2, 2], [2, 3], [2, 4], [5], [0, M(5, 'JOIN', 0)], [0, M(6, 'PRIVMSG', 0)],
+                                                  [0, M(7, 'JOIN', 1)], [0, M(8, 'JOIN', 2)]]}, 4),
+    add_tail({'cfg': [2, 3, 0, 1, 10, 0], 'ops': [[4, 1], [0, M(1, 'JOIN', 0)], [0, M(2, 'JOIN', 1)], [0, M(3, 'JOIN', 2, 2, 3)], [0, M(4, 'WHO', 1)],
+                                                 [1, M(5, 'PONG', 1, 3, 2)]]}, 1),
     # die before connect; reset while zombie
     {'cfg': [1, 0, 0, 1, 120, 0], 'ops': [[4, 1], [0, M(1, 'PRIVMSG', 0)], [3]]},
     {'cfg': [1, 0, 0, 1, 120, 0], 'ops': [[4, 1], [5], [0, M(2, 'PRIVMSG', 0)], [3], [4, 3]]},
@@ -518,9 +612,11 @@ def check_case(ctx, case, mout, kind, sink):
         if check in seen:
             continue
         seen.add(check)
-        inp = dict(case)
+        inp = dict((k, v) for k, v in case.items() if not k.startswith('_'))
         inp['check'] = check
         sink.append((inp, detail))
+    case.pop('_infos', None)
+    case.pop('_keep', None)
 
 
 def run(ctx):
@@ -531,6 +627,12 @@ def run(ctx):
         cases.append((gen_case(rng, False), 'structured'))
     for _ in range(ctx.n(700)):
         cases.append((gen_case(rng, True), 'hostile'))
+    for _ in range(ctx.n(200)):
+        cases.append((gen_join_tail(rng), 'join-rate-polling-tail'))
+    for _ in range(ctx.n(150)):
+        cases.append((gen_tail_case(rng, False), 'structured-polling-tail'))
+    for _ in range(ctx.n(60)):
+        cases.append((gen_tail_case(rng, True), 'hostile-polling-tail'))
     outs = ctx.model([wire_case(c) for c, _ in cases])
     sink = []
     for (c, kind), mo in zip(cases, outs):
@@ -561,6 +663,8 @@ def run(ctx):
 
 def replay(ctx, inp):
     case = {'cfg': inp['cfg'], 'ops': inp['ops']}
+    if inp.get('tail') is not None:
+        case['tail'] = inp['tail']
     obs, facts = run_impl(case)
     want = inp.get('check')
     for check, detail in oracle(case, facts):
@@ -571,9 +675,15 @@ def replay(ctx, inp):
 
 def shrink(ctx, inp):
     ops = inp['ops']
-    def fails(rest):
-        return replay(ctx, {'cfg': inp['cfg'], 'ops': [ops[0]] + list(rest), 'check': inp.get('check')}) is not None
-    small = shrink_seq(ops[1:], fails, budget=300)
-    out = dict(inp)
-    out['ops'] = [ops[0]] + list(small)
-    return out
+    tail = inp.get('tail')
+    head, rest = (ops[1:tail], ops[tail:]) if tail is not None else (ops[1:], [])
+
+    def build(mid):
+        out = dict(inp)
+        out['ops'] = [ops[0]] + list(mid) + rest
+        if tail is not None:
+            out['tail'] = 1 + len(mid)
+        return out
+
+    small = shrink_seq(head, lambda mid: replay(ctx, build(mid)) is not None, budget=300)
+    return build(small)
